@@ -25,10 +25,10 @@ func init() {
 
 func routerSpecs(e *Env, family string, n int, typed bool) []PkgSpec {
 	disabled := disabledTags()
-	forms := specgen.BaseForms()
+	nextForm := formWalker(e, specgen.BaseForms())
 	return collect(e, family, n, func(t *rapid.T) PkgSpec {
 		c := specgen.NewCtx(t, disabled)
-		bf := rapid.SampledFrom(forms).Draw(t, "baseform")
+		bf := nextForm()
 		// (every method a path item can declare is an operation like any other)
 		d := c.RouterDoc(specgen.RouterOpts{Typed: typed, Methods: []string{"GET", "POST", "DELETE", "PUT", "PATCH", "HEAD", "OPTIONS", "TRACE"}})
 		d.Servers = bf.Servers
